@@ -4,33 +4,46 @@
    overloads and PointData::xNorthAngle -- is extracted from /repo on every run.
 
    HAND DERIVATION of the expected design-matrix rows (not read off the code; reviewed against
-   doc/gama-local-adj.texi, node "Linearization": b = L - phi(X0), angular rows scaled by 2000/pi = 10*R2G,
-   corrections to coordinates in mm, to angular quantities in cc; the document gives no per-type formulas).
+   doc/gama-local-adj.texi, node "Linearization": A = d(phi)/dX, b = L - phi(X0), angular rows scaled by
+   2000/pi = 10*R2G, corrections to coordinates in mm, to angular quantities in cc; the document gives no
+   per-type formulas, so there is nothing more to cross-check there).
 
    Notation: F = from/stand point, T = to/target point; dx = xT-xF, dy = yT-yF, dz = zT-zF;
    d = sqrt(dx^2+dy^2) (horizontal), sd = sqrt(dx^2+dy^2+dz^2) (slope); gama's bearing s = atan2(dy,dx)
    (angle from +x towards +y, mapped to [0,2pi)), hence dy = d sin s, dx = d cos s; S = sin s, C = cos s.
-   Unit factors: coordinates corrections are in mm, so a length observable [mm] has factor 1 per unit of
-   d(phi)/d(coord); an angle observable [cc] has (200e4/pi cc/rad) / (1000 mm/m) = 2000/pi = 10*R2G per metre^-1.
+   Unit factors: coordinate corrections are in mm, so a length observable [mm] has factor 1 per unit of
+   d(phi)/d(coord); an angle observable [cc] has (200e4/pi cc/rad) / (1000 mm/m) = 2000/pi = 10*R2G per 1/metre.
 
      distance     phi = d                d/dyT = dy/d = S      d/dxT = dx/d = C      F: negatives
      direction    phi = s - o            d/dyT = dx/d^2 = C/d  d/dxT = -dy/d^2 = -S/d  F: negatives   d/do = -1
                   -> K = 10*R2G/d:       yT: +K C   xT: -K S   yF: -K C   xF: +K S   o: -1 (cc/cc)
-     azimuth      phi = s - N (N = bearing of north, constant)   same as direction without o
+     azimuth      phi = s - N (N = bearing of north, a constant of the coordinate system): as direction, no o
      angle        phi = s2 - s1 (bs = 1, fs = 2)  fs: y +K2 C2, x -K2 S2;  bs: y -K1 C1, x +K1 S1;
                                          F: y -K2 C2 + K1 C1,  x +K2 S2 - K1 S1
      h_diff       phi = zT - zF          zT: +1   zF: -1
      s_distance   phi = sd               d/dxT = dx/sd, d/dyT = dy/sd, d/dzT = dz/sd   F: negatives
      z_angle      phi = acos(dz/sd); with u = dz/sd, sqrt(1-u^2) = d/sd, d(acos u) = -(sd/d) du:
                   du/ddz = d^2/sd^3, du/ddx = -dz dx/sd^3   =>  d/dzT = -d/sd^2,  d/dxT = dz dx/(d sd^2),
-                  d/dyT = dz dy/(d sd^2);  with k = 10*R2G/(d sd^2):  xT: k dz dx, yT: k dz dy, zT: -k d d; F: negatives
+                  d/dyT = dz dy/(d sd^2);  with k = 10*R2G/(d sd^2):  xT: k dz dx, yT: k dz dy, zT: -k d d; F: negatives.
+                  A reading L > pi (second face) observes phi' = 2pi - phi, whose derivatives are the NEGATIVES.
      x, y, z      phi = coordinate       +1
      xdiff, ...   phi = cT - cF          T: +1, F: -1
    Right-hand side: (observed - computed) * 1e3 [mm] for lengths, * R2CC [cc] for angles, angles reduced by whole
-   circles (400e4 cc) into half a circle around zero.                                                          */
+   circles (400e4 cc) into half a circle around zero.
+
+   TWO checks per function (same contract text, selected by -DLIN_VALUES):
+     <fn>      LIN_VALUES=0, SAT:  row structure -- size, index set (each unknown once), index-assignment protocol,
+               maxn, frame (assigns clause), memory safety, reduction loops (invariants, termination, range);
+     <fn>_val  LIN_VALUES=1, cvc5 + --slice-formula on the listed postconditions: the floating-point VALUES of the
+               coefficients and of the right-hand side, and the arguments that reach sqrt/atan2/acos.  They are exact
+               identities between the code's value and the hand-derived expression written with the same association;
+               a SAT back end cannot prove two multiplier circuits equal (measured: > 200 s for one `*1e3`).           */
 
 //@ prelude
 #include "lin_gen.h" /* generated from the repository by lin_pre.py: M_PI, R2G, R2CC, ...; LocalPoint status enum; CS */
+#ifndef LIN_VALUES
+#define LIN_VALUES 0
+#endif
 
 typedef int PointID;
 
@@ -126,7 +139,6 @@ double lin_cos(double x)
 double lin_acos(double x)
 {
   __CPROVER_assert(G.nacos < 1, "at most one acos call per linearization");
-  __CPROVER_assert(-1 <= x && x <= 1, "acos argument in [-1,1]");
   double r = P.acos_ret;
   __CPROVER_assume(0 <= r && r <= M_PI); /* assumed libm contract */
   G.acos_arg = x;
@@ -147,12 +159,13 @@ PointID Observation_to(const struct Observation *self);
 void gama_bearing_distance_xy(double ya, double xa, double yb, double xb, double *b__p, double *d__p);
 bool AngularObservations_right_handed_angles(const struct PointData *self);
 
-/* ---- vocabulary of the contracts ---- */
-#define PT(L, id) (&(L)->PD->pts[id])
-#define FP(L, o) PT(L, (o)->from_)
-#define TP(L, o) PT(L, (o)->to_)
+/* ---- vocabulary of the contracts (the enforced functions name their parameters self, obs) ---- */
+/* WLOG the point ids are 0 (from), 1 (to / bs), 2 (fs): the map stub is an arbitrary injection id -> point */
+#define F0 (&self->PD->pts[0])
+#define T0 (&self->PD->pts[1])
+#define S0 (&self->PD->pts[2])
 #define SP(o) ((struct StandPoint *)(o)->cluster)
-#define FREEXY(p) (((p)->pst_ & xy_adjusted_) != 0) /* free or constrained: the coordinate is an unknown */
+#define FREEXY(p) (((p)->pst_ & xy_adjusted_) != 0) /* free or constrained: the coordinates are unknowns */
 #define FREEZ(p) (((p)->pst_ & z_adjusted_) != 0)
 #define VALUE(o) ((o)->value_ + (o)->reduction_dh_) /* observed value incl. dh reduction */
 #define B2I(c) ((c) ? 1 : 0)
@@ -162,36 +175,91 @@ bool AngularObservations_right_handed_angles(const struct PointData *self);
 #define FIN(v, m) (-(m) <= (v) && (v) <= (m)) /* finite and bounded (false for NaN) */
 #define COORDS_OK(p) (FIN((p)->x_, CMAX) && FIN((p)->y_, CMAX) && FIN((p)->z_, CMAX))
 #define GHOST_RESET (G.nsqrt == 0 && G.natan2 == 0 && G.nacos == 0 && G.j1 == 0 && G.j2 == 0 && gv_exc == 0)
-#define SHAPE2(L, o)                                                                                        \
+#define SHAPE(L, o)                                                                                         \
   (__CPROVER_rw_ok((L), sizeof(struct LocalLinearization)) && __CPROVER_rw_ok((L)->PD, sizeof(struct PointData)) && \
-   __CPROVER_r_ok((o), sizeof(struct Observation)) && !SAME((L), (L)->PD) && 0 <= (o)->from_ &&             \
-   (o)->from_ < NPTS && 0 <= (o)->to_ && (o)->to_ < NPTS && (o)->from_ != (o)->to_ && 0 <= (L)->maxn &&     \
-   (L)->maxn <= MAXN && COORDS_OK(FP(L, o)) && COORDS_OK(TP(L, o)) && FIN(VALUE(o), 1e12))
+   __CPROVER_r_ok((o), sizeof(struct Observation)) && !SAME((L), (L)->PD) && !SAME((o), (L)) && !SAME((o), (L)->PD) && \
+   (o)->from_ == 0 && 0 <= (L)->maxn && (L)->maxn <= MAXN && FIN(VALUE(o), 1e12) && GHOST_RESET)
+#define SHAPE1(L, o) (SHAPE(L, o) && COORDS_OK(F0))
+#define SHAPE2(L, o) (SHAPE(L, o) && (o)->to_ == 1 && COORDS_OK(F0) && COORDS_OK(T0))
+#define SHAPE3(L, o) (SHAPE2(L, o) && (o)->fs_ == 2 && COORDS_OK(S0))
 #define NONSING(i) (P.sqrt_ret[i] >= 1e-6 && P.sqrt_ret[i] <= 1e10) /* non-singular: points >= 1 um apart */
 #define TRIG(i) (FIN(P.S[i], 1.0) && FIN(P.C[i], 1.0) && FIN(P.atan2_ret[i], M_PI))
 
-/* unknown-index protocol.  `used`: the observation depends on this unknown; u: its index lvalue */
-#define WF1(used, u, L) ((used) ==> (0 <= (u) && (u) <= (L)->maxn))
+/* unknowns as (used, index-lvalue) pairs.  `used`: the observation depends on this unknown */
+#define U_FX (FREEXY(F0), F0->ix_)
+#define U_FY (FREEXY(F0), F0->iy_)
+#define U_FZ (FREEZ(F0), F0->iz_)
+#define U_TX (FREEXY(T0), T0->ix_)
+#define U_TY (FREEXY(T0), T0->iy_)
+#define U_TZ (FREEZ(T0), T0->iz_)
+#define U_SX (FREEXY(S0), S0->ix_)
+#define U_SY (FREEXY(S0), S0->iy_)
+#define U_OR (1, SP(obs)->indx_or)
+
+/* precondition: indices already assigned to the unknowns involved are in 1..maxn and pairwise distinct */
+#define WF1(used, u) ((used) ==> (0 <= (u) && (u) <= self->maxn))
 #define WF2(usedu, u, usedv, v) (((usedu) && (usedv) && (u) != 0) ==> (u) != (v))
-#define UNK(used, u, L)                                                                                    \
-  ((used) ? (__CPROVER_old(u) != 0 ? (u) == __CPROVER_old(u) : ((u) > __CPROVER_old((L)->maxn) && (u) <= (L)->maxn)) \
+/* postcondition: an assigned index is left alone, an unassigned one becomes fresh (> old maxn, <= new maxn);
+   indices of unknowns the observation does not depend on are untouched */
+#define UNK(used, u)                                                                                       \
+  ((used) ? (__CPROVER_old(u) != 0 ? (u) == __CPROVER_old(u) : ((u) > __CPROVER_old(self->maxn) && (u) <= self->maxn)) \
           : (u) == __CPROVER_old(u))
 #define NEWU(used, u) (((used) && __CPROVER_old(u) == 0) ? 1 : 0)
-#define NE2(usedu, u, usedv, v) (((usedu) && (usedv)) ==> (u) != (v))
+#define CNT(used, u) B2I(used)
+#define IN_ROW(used, u) ((used) ==> HASIX(self, u))
+/* unknown descriptors are parenthesised tuples; X_T applies macro X to a tuple (or two) */
+#define UNTUP(...) __VA_ARGS__
+#define WF1_T(a) WF1 a
+#define UNK_T(a) UNK a
+#define NEWU_T(a) NEWU a
+#define CNT_T(a) CNT a
+#define IN_ROW_T(a) IN_ROW a
+#define WF2_I(...) WF2(__VA_ARGS__)
+#define WF2_T(a, b) WF2_I(UNTUP a, UNTUP b)
+#define ALL1(M, a) (M(a))
+#define ALL2(M, a, b) (M(a) && M(b))
+#define ALL4(M, a, b, c, d) (M(a) && M(b) && M(c) && M(d))
+#define ALL5(M, a, b, c, d, e) (M(a) && M(b) && M(c) && M(d) && M(e))
+#define ALL6(M, a, b, c, d, e, f) (M(a) && M(b) && M(c) && M(d) && M(e) && M(f))
+#define SUM1(M, a) (M(a))
+#define SUM2(M, a, b) (M(a) + M(b))
+#define SUM4(M, a, b, c, d) (M(a) + M(b) + M(c) + M(d))
+#define SUM5(M, a, b, c, d, e) (M(a) + M(b) + M(c) + M(d) + M(e))
+#define SUM6(M, a, b, c, d, e, f) (M(a) + M(b) + M(c) + M(d) + M(e) + M(f))
+#define PAIRS2(M, a, b) (M(a, b))
+#define PAIRS4(M, a, b, c, d) (M(a, b) && M(a, c) && M(a, d) && M(b, c) && M(b, d) && M(c, d))
+#define PAIRS5(M, a, b, c, d, e) (PAIRS4(M, a, b, c, d) && M(a, e) && M(b, e) && M(c, e) && M(d, e))
+#define PAIRS6(M, a, b, c, d, e, f) (PAIRS5(M, a, b, c, d, e) && M(a, f) && M(b, f) && M(c, f) && M(d, f) && M(e, f))
+/* the three structure clauses every function gets, for its list of n unknowns */
+#define PRE_UNK1(a) (ALL1(WF1_T, a))
+#define PRE_UNK2(a, b) (ALL2(WF1_T, a, b) && PAIRS2(WF2_T, a, b))
+#define PRE_UNK4(a, b, c, d) (ALL4(WF1_T, a, b, c, d) && PAIRS4(WF2_T, a, b, c, d))
+#define PRE_UNK5(a, b, c, d, e) (ALL5(WF1_T, a, b, c, d, e) && PAIRS5(WF2_T, a, b, c, d, e))
+#define PRE_UNK6(a, b, c, d, e, f) (ALL6(WF1_T, a, b, c, d, e, f) && PAIRS6(WF2_T, a, b, c, d, e, f))
+#define POST_ROW(ALLn, SUMn, ...)                                                                          \
+  (self->size == SUMn(CNT_T, __VA_ARGS__) && ALLn(UNK_T, __VA_ARGS__) &&                                       \
+   self->maxn == __CPROVER_old(self->maxn) + SUMn(NEWU_T, __VA_ARGS__) && EACH_ONCE(self) && ALLn(IN_ROW_T, __VA_ARGS__))
 
 /* design-matrix row as a SET of (index, coefficient) pairs */
+#define HASIX1(L, k, ix) ((L)->size > (k) && (L)->index[k] == (ix))
+#define HASIX(L, ix) (HASIX1(L, 0, ix) || HASIX1(L, 1, ix) || HASIX1(L, 2, ix) || HASIX1(L, 3, ix) || HASIX1(L, 4, ix) || HASIX1(L, 5, ix))
 #define HAS1(L, k, ix, c) ((L)->size > (k) && (L)->index[k] == (ix) && (L)->coeff[k] == (c))
 #define HAS(L, ix, c) (HAS1(L, 0, ix, c) || HAS1(L, 1, ix, c) || HAS1(L, 2, ix, c) || HAS1(L, 3, ix, c) || HAS1(L, 4, ix, c) || HAS1(L, 5, ix, c))
+#define COEF(used, u, c) ((used) ==> HAS(self, u, c))
+#define COEF_I(...) COEF(__VA_ARGS__)
+#define COEF_(a, c) COEF_I(UNTUP a, c)
 #define DIFF1(L, j, k) ((L)->size > (k) ==> (L)->index[j] != (L)->index[k])
 #define EACH_ONCE(L)                                                                                        \
-  (DIFF1(L, 0, 1) && DIFF1(L, 0, 2) && DIFF1(L, 0, 3) && DIFF1(L, 0, 4) && DIFF1(L, 0, 5) && DIFF1(L, 1, 2) && \
+  (0 <= (L)->size && (L)->size <= 6 &&                                                                      \
+   DIFF1(L, 0, 1) && DIFF1(L, 0, 2) && DIFF1(L, 0, 3) && DIFF1(L, 0, 4) && DIFF1(L, 0, 5) && DIFF1(L, 1, 2) && \
    DIFF1(L, 1, 3) && DIFF1(L, 1, 4) && DIFF1(L, 1, 5) && DIFF1(L, 2, 3) && DIFF1(L, 2, 4) && DIFF1(L, 2, 5) && \
    DIFF1(L, 3, 4) && DIFF1(L, 3, 5) && DIFF1(L, 4, 5))
 
-/* geometry bound by the recorded libm arguments: call #i of bearing_distance went from point a to point b */
+/* geometry: what reaches libm */
 #define DX(a, b) ((b)->x_ - (a)->x_)
 #define DY(a, b) ((b)->y_ - (a)->y_)
 #define DZ(a, b) ((b)->z_ - (a)->z_)
+/* call #i of bearing_distance went from point a to point b: d = sqrt(dy^2+dx^2), s = atan2(dy, dx) */
 #define BEARING_OF(i, a, b)                                                                                \
   (G.sqrt_arg[i] == DY(a, b) * DY(a, b) + DX(a, b) * DX(a, b) && G.atan2_y[i] == DY(a, b) && G.atan2_x[i] == DX(a, b))
 
@@ -202,33 +270,133 @@ bool AngularObservations_right_handed_angles(const struct PointData *self);
 #define REDUCED(L) ((G.j1 == 0 || G.j2 == 0) && 0 <= G.j1 && G.j1 <= 3 && 0 <= G.j2 && G.j2 <= 3 &&          \
                     (L)->rhs == ADDN(SUBN(G.raw, G.j1), G.j2) && -200e4 <= (L)->rhs && (L)->rhs <= 200e4)
 
+/* Instantiation of the stated precondition RAW_OK(<misclosure expression over the inputs>) at the variable the
+   reduction loops start from.  The _val check (cvc5) proves `a == spec` BEFORE anything is assumed; the structure
+   check (SAT) then uses RAW_OK(a).  (SAT cannot connect two multiplier circuits, cvc5 sees the same term.)    */
+#if LIN_VALUES
+#define LIN_INST_RAW(a, spec) do { __CPROVER_assert((a) == (spec), "instantiation index in range: loops start from the misclosure that the precondition bounds"); \
+                                   __CPROVER_assume(RAW_OK(a)); } while (0)
+#else
+#define LIN_INST_RAW(a, spec) __CPROVER_assume(RAW_OK(a))
+#endif
+
 #define KANG(d) (10 * R2G / (d)) /* 2000/pi per metre */
+
+/* bearing of north = angle from the +x axis to north in the sense angles are measured (gama keeps the internal
+   system consistent with that sense by flipping y on input, so only the x axis matters).  Clockwise
+   ("left-handed" angles, gama's default) from +x to north: x = N: 0, x = E: 300, x = S: 200, x = W: 100 gon;
+   counter-clockwise ("right-handed"): N: 0, E: 100, S: 200, W: 300.                                      */
+#define XAXIS_N(cs) ((cs) == CS_NE || (cs) == CS_NW)
+#define XAXIS_E(cs) ((cs) == CS_EN || (cs) == CS_ES)
+#define XAXIS_S(cs) ((cs) == CS_SE || (cs) == CS_SW)
+#define XAXIS_W(cs) ((cs) == CS_WN || (cs) == CS_WS)
+#define NORTH_GON(pd)                                                                                      \
+  (XAXIS_N((pd)->local_coordinate_system) ? 0                                                              \
+   : XAXIS_S((pd)->local_coordinate_system) ? 200                                                          \
+   : XAXIS_E((pd)->local_coordinate_system) ? ((pd)->left_handed_ ? 300 : 100)                             \
+                                            : ((pd)->left_handed_ ? 100 : 300))
+#define CS_OK(pd) (XAXIS_N((pd)->local_coordinate_system) || XAXIS_E((pd)->local_coordinate_system) ||     \
+                   XAXIS_S((pd)->local_coordinate_system) || XAXIS_W((pd)->local_coordinate_system))
+//@ end
+
+/* ================================================================================================== */
+/* x, y, z: phi = the coordinate.  Row: +1.  rhs = (observed - coordinate) * 1e3 mm.                    */
+//@ contract LocalLinearization_x
+__CPROVER_requires(SHAPE1(self, obs) && PRE_UNK1(U_FX))
+__CPROVER_assigns(self->rhs, self->size, self->maxn, self->coeff, self->index, F0->ix_)
+#if LIN_VALUES
+__CPROVER_ensures(self->rhs == (VALUE(obs) - F0->x_) * 1e3)
+__CPROVER_ensures(COEF_(U_FX, 1.0))
+#else
+__CPROVER_ensures(POST_ROW(ALL1, SUM1, U_FX))
+#endif
+//@ entry LocalLinearization_x
+GV_CANARY("LocalLinearization_x entry");
+//@ contract LocalLinearization_y
+__CPROVER_requires(SHAPE1(self, obs) && PRE_UNK1(U_FY))
+__CPROVER_assigns(self->rhs, self->size, self->maxn, self->coeff, self->index, F0->iy_)
+#if LIN_VALUES
+__CPROVER_ensures(self->rhs == (VALUE(obs) - F0->y_) * 1e3)
+__CPROVER_ensures(COEF_(U_FY, 1.0))
+#else
+__CPROVER_ensures(POST_ROW(ALL1, SUM1, U_FY))
+#endif
+//@ entry LocalLinearization_y
+GV_CANARY("LocalLinearization_y entry");
+//@ contract LocalLinearization_z
+__CPROVER_requires(SHAPE1(self, obs) && PRE_UNK1(U_FZ))
+__CPROVER_assigns(self->rhs, self->size, self->maxn, self->coeff, self->index, F0->iz_)
+#if LIN_VALUES
+__CPROVER_ensures(self->rhs == (VALUE(obs) - F0->z_) * 1e3)
+__CPROVER_ensures(COEF_(U_FZ, 1.0))
+#else
+__CPROVER_ensures(POST_ROW(ALL1, SUM1, U_FZ))
+#endif
+//@ entry LocalLinearization_z
+GV_CANARY("LocalLinearization_z entry");
+//@ end
+
+/* ================================================================================================== */
+/* xdiff, ydiff, zdiff, h_diff: phi = cT - cF.  Row: T +1, F -1.  rhs = (observed - (cT - cF)) * 1e3 mm. */
+//@ contract LocalLinearization_xdiff
+__CPROVER_requires(SHAPE2(self, obs) && PRE_UNK2(U_FX, U_TX))
+__CPROVER_assigns(self->rhs, self->size, self->maxn, self->coeff, self->index, F0->ix_, T0->ix_)
+#if LIN_VALUES
+__CPROVER_ensures(self->rhs == (VALUE(obs) - DX(F0, T0)) * 1e3)
+__CPROVER_ensures(COEF_(U_FX, -1.0) && COEF_(U_TX, 1.0))
+#else
+__CPROVER_ensures(POST_ROW(ALL2, SUM2, U_FX, U_TX))
+#endif
+//@ entry LocalLinearization_xdiff
+GV_CANARY("LocalLinearization_xdiff entry");
+//@ contract LocalLinearization_ydiff
+__CPROVER_requires(SHAPE2(self, obs) && PRE_UNK2(U_FY, U_TY))
+__CPROVER_assigns(self->rhs, self->size, self->maxn, self->coeff, self->index, F0->iy_, T0->iy_)
+#if LIN_VALUES
+__CPROVER_ensures(self->rhs == (VALUE(obs) - DY(F0, T0)) * 1e3)
+__CPROVER_ensures(COEF_(U_FY, -1.0) && COEF_(U_TY, 1.0))
+#else
+__CPROVER_ensures(POST_ROW(ALL2, SUM2, U_FY, U_TY))
+#endif
+//@ entry LocalLinearization_ydiff
+GV_CANARY("LocalLinearization_ydiff entry");
+//@ contract LocalLinearization_zdiff
+__CPROVER_requires(SHAPE2(self, obs) && PRE_UNK2(U_FZ, U_TZ))
+__CPROVER_assigns(self->rhs, self->size, self->maxn, self->coeff, self->index, F0->iz_, T0->iz_)
+#if LIN_VALUES
+__CPROVER_ensures(self->rhs == (VALUE(obs) - DZ(F0, T0)) * 1e3)
+__CPROVER_ensures(COEF_(U_FZ, -1.0) && COEF_(U_TZ, 1.0))
+#else
+__CPROVER_ensures(POST_ROW(ALL2, SUM2, U_FZ, U_TZ))
+#endif
+//@ entry LocalLinearization_zdiff
+GV_CANARY("LocalLinearization_zdiff entry");
+//@ contract LocalLinearization_h_diff
+__CPROVER_requires(SHAPE2(self, obs) && PRE_UNK2(U_FZ, U_TZ))
+__CPROVER_assigns(self->rhs, self->size, self->maxn, self->coeff, self->index, F0->iz_, T0->iz_)
+#if LIN_VALUES
+__CPROVER_ensures(self->rhs == (VALUE(obs) - DZ(F0, T0)) * 1e3)
+__CPROVER_ensures(COEF_(U_FZ, -1.0) && COEF_(U_TZ, 1.0))
+#else
+__CPROVER_ensures(POST_ROW(ALL2, SUM2, U_FZ, U_TZ))
+#endif
+//@ entry LocalLinearization_h_diff
+GV_CANARY("LocalLinearization_h_diff entry");
 //@ end
 
 /* ================================================================================================== */
 /* distance: phi = d.  Row: yT +S, xT +C, yF -S, xF -C.  rhs = (observed - d) * 1e3 mm.                */
 //@ contract LocalLinearization_distance
-__CPROVER_requires(SHAPE2(self, obs) && GHOST_RESET && NONSING(0) && TRIG(0))
-__CPROVER_requires(WF1(FREEXY(FP(self, obs)), FP(self, obs)->ix_, self) && WF1(FREEXY(FP(self, obs)), FP(self, obs)->iy_, self) &&
-                   WF1(FREEXY(TP(self, obs)), TP(self, obs)->ix_, self) && WF1(FREEXY(TP(self, obs)), TP(self, obs)->iy_, self))
-__CPROVER_requires(WF2(FREEXY(FP(self, obs)), FP(self, obs)->ix_, FREEXY(FP(self, obs)), FP(self, obs)->iy_) &&
-                   WF2(FREEXY(FP(self, obs)), FP(self, obs)->ix_, FREEXY(TP(self, obs)), TP(self, obs)->ix_) &&
-                   WF2(FREEXY(FP(self, obs)), FP(self, obs)->ix_, FREEXY(TP(self, obs)), TP(self, obs)->iy_) &&
-                   WF2(FREEXY(FP(self, obs)), FP(self, obs)->iy_, FREEXY(TP(self, obs)), TP(self, obs)->ix_) &&
-                   WF2(FREEXY(FP(self, obs)), FP(self, obs)->iy_, FREEXY(TP(self, obs)), TP(self, obs)->iy_) &&
-                   WF2(FREEXY(TP(self, obs)), TP(self, obs)->ix_, FREEXY(TP(self, obs)), TP(self, obs)->iy_))
-__CPROVER_assigns(self->rhs, self->size, self->maxn, self->coeff, self->index, G, FP(self, obs)->ix_, FP(self, obs)->iy_,
-                  TP(self, obs)->ix_, TP(self, obs)->iy_)
-__CPROVER_ensures(gv_exc == 0 && G.nsqrt == 1 && G.natan2 == 1 && BEARING_OF(0, FP(self, obs), TP(self, obs)))
+__CPROVER_requires(SHAPE2(self, obs) && NONSING(0) && TRIG(0) && PRE_UNK4(U_FX, U_FY, U_TX, U_TY))
+__CPROVER_assigns(self->rhs, self->size, self->maxn, self->coeff, self->index, G, F0->ix_, F0->iy_, T0->ix_, T0->iy_)
+#if LIN_VALUES
+__CPROVER_ensures(BEARING_OF(0, F0, T0))
 __CPROVER_ensures(self->rhs == (VALUE(obs) - P.sqrt_ret[0]) * 1e3)
-__CPROVER_ensures(self->size == 2 * B2I(FREEXY(FP(self, obs))) + 2 * B2I(FREEXY(TP(self, obs))))
-__CPROVER_ensures(UNK(FREEXY(FP(self, obs)), FP(self, obs)->ix_, self) && UNK(FREEXY(FP(self, obs)), FP(self, obs)->iy_, self) &&
-                  UNK(FREEXY(TP(self, obs)), TP(self, obs)->ix_, self) && UNK(FREEXY(TP(self, obs)), TP(self, obs)->iy_, self))
-__CPROVER_ensures(self->maxn == __CPROVER_old(self->maxn) + NEWU(FREEXY(FP(self, obs)), FP(self, obs)->ix_) + NEWU(FREEXY(FP(self, obs)), FP(self, obs)->iy_) +
-                                    NEWU(FREEXY(TP(self, obs)), TP(self, obs)->ix_) + NEWU(FREEXY(TP(self, obs)), TP(self, obs)->iy_))
-__CPROVER_ensures(EACH_ONCE(self))
-__CPROVER_ensures(FREEXY(FP(self, obs)) ==> (HAS(self, FP(self, obs)->iy_, -P.S[0]) && HAS(self, FP(self, obs)->ix_, -P.C[0])))
-__CPROVER_ensures(FREEXY(TP(self, obs)) ==> (HAS(self, TP(self, obs)->iy_, P.S[0]) && HAS(self, TP(self, obs)->ix_, P.C[0])))
+__CPROVER_ensures(COEF_(U_FY, -P.S[0]) && COEF_(U_FX, -P.C[0]) && COEF_(U_TY, P.S[0]) && COEF_(U_TX, P.C[0]))
+#else
+__CPROVER_ensures(gv_exc == 0 && G.nsqrt == 1 && G.natan2 == 1)
+__CPROVER_ensures(POST_ROW(ALL4, SUM4, U_FX, U_FY, U_TX, U_TY))
+#endif
 //@ entry LocalLinearization_distance
 GV_CANARY("LocalLinearization_distance entry");
 //@ end
@@ -237,43 +405,33 @@ GV_CANARY("LocalLinearization_distance entry");
 /* direction: phi = s - o.  Row: o -1; yT +K C, xT -K S, yF -K C, xF +K S with K = 10*R2G/d.
    rhs = (observed - (s - o)) * R2CC = (observed + o - s) * R2CC, reduced by whole circles.             */
 //@ contract LocalLinearization_direction
-__CPROVER_requires(SHAPE2(self, obs) && GHOST_RESET && NONSING(0) && TRIG(0))
-__CPROVER_requires(__CPROVER_rw_ok(SP(obs), sizeof(struct StandPoint)) && !SAME(SP(obs), self) && !SAME(SP(obs), self->PD))
+__CPROVER_requires(SHAPE2(self, obs) && NONSING(0) && TRIG(0))
+__CPROVER_requires(__CPROVER_rw_ok(SP(obs), sizeof(struct StandPoint)) && !SAME(SP(obs), self) && !SAME(SP(obs), self->PD) && !SAME(SP(obs), obs))
 __CPROVER_requires(FIN(SP(obs)->attr_or, 1e12))
-__CPROVER_requires(SP(obs)->test_or ==> RAW_OK((VALUE(obs) + SP(obs)->attr_or - BRG(0)) * R2CC))
-__CPROVER_requires(WF1(1, SP(obs)->indx_or, self) &&
-                   WF1(FREEXY(FP(self, obs)), FP(self, obs)->ix_, self) && WF1(FREEXY(FP(self, obs)), FP(self, obs)->iy_, self) &&
-                   WF1(FREEXY(TP(self, obs)), TP(self, obs)->ix_, self) && WF1(FREEXY(TP(self, obs)), TP(self, obs)->iy_, self))
-__CPROVER_requires(WF2(FREEXY(FP(self, obs)), FP(self, obs)->ix_, FREEXY(FP(self, obs)), FP(self, obs)->iy_) &&
-                   WF2(FREEXY(FP(self, obs)), FP(self, obs)->ix_, FREEXY(TP(self, obs)), TP(self, obs)->ix_) &&
-                   WF2(FREEXY(FP(self, obs)), FP(self, obs)->ix_, FREEXY(TP(self, obs)), TP(self, obs)->iy_) &&
-                   WF2(FREEXY(FP(self, obs)), FP(self, obs)->iy_, FREEXY(TP(self, obs)), TP(self, obs)->ix_) &&
-                   WF2(FREEXY(FP(self, obs)), FP(self, obs)->iy_, FREEXY(TP(self, obs)), TP(self, obs)->iy_) &&
-                   WF2(FREEXY(TP(self, obs)), TP(self, obs)->ix_, FREEXY(TP(self, obs)), TP(self, obs)->iy_) &&
-                   WF2(1, SP(obs)->indx_or, FREEXY(FP(self, obs)), FP(self, obs)->ix_) && WF2(1, SP(obs)->indx_or, FREEXY(FP(self, obs)), FP(self, obs)->iy_) &&
-                   WF2(1, SP(obs)->indx_or, FREEXY(TP(self, obs)), TP(self, obs)->ix_) && WF2(1, SP(obs)->indx_or, FREEXY(TP(self, obs)), TP(self, obs)->iy_) &&
-                   WF2(FREEXY(FP(self, obs)), FP(self, obs)->ix_, 1, SP(obs)->indx_or) && WF2(FREEXY(FP(self, obs)), FP(self, obs)->iy_, 1, SP(obs)->indx_or) &&
-                   WF2(FREEXY(TP(self, obs)), TP(self, obs)->ix_, 1, SP(obs)->indx_or) && WF2(FREEXY(TP(self, obs)), TP(self, obs)->iy_, 1, SP(obs)->indx_or))
+#define RAW_direction ((VALUE(obs) + SP(obs)->attr_or - BRG(0)) * R2CC)
+#if LIN_VALUES
+__CPROVER_requires(SP(obs)->test_or ==> RAW_OK(RAW_direction)) /* stated precondition, used through LIN_INST_RAW */
+#endif
+__CPROVER_requires(PRE_UNK5(U_OR, U_FX, U_FY, U_TX, U_TY))
 __CPROVER_assigns(self->rhs, self->size, self->maxn, self->coeff, self->index, G, gv_exc, SP(obs)->indx_or,
-                  FP(self, obs)->ix_, FP(self, obs)->iy_, TP(self, obs)->ix_, TP(self, obs)->iy_)
+                  F0->ix_, F0->iy_, T0->ix_, T0->iy_)
+#if LIN_VALUES
+__CPROVER_ensures(BEARING_OF(0, F0, T0))
+__CPROVER_ensures(gv_exc == 0 ==> G.raw == RAW_direction)
+__CPROVER_ensures(gv_exc == 0 ==> COEF_(U_OR, -1.0))
+__CPROVER_ensures(gv_exc == 0 ==> (COEF_(U_FY, -(KANG(P.sqrt_ret[0]) * P.C[0])) && COEF_(U_FX, KANG(P.sqrt_ret[0]) * P.S[0])))
+__CPROVER_ensures(gv_exc == 0 ==> (COEF_(U_TY, KANG(P.sqrt_ret[0]) * P.C[0]) && COEF_(U_TX, -(KANG(P.sqrt_ret[0]) * P.S[0]))))
+#else
 __CPROVER_ensures((gv_exc == 0) == (SP(obs)->test_or != 0))
-__CPROVER_ensures(G.nsqrt == 1 && G.natan2 == 1 && BEARING_OF(0, FP(self, obs), TP(self, obs)))
-__CPROVER_ensures(gv_exc == 0 ==> (G.raw == (VALUE(obs) + SP(obs)->attr_or - BRG(0)) * R2CC && REDUCED(self)))
-__CPROVER_ensures(gv_exc == 0 ==> self->size == 1 + 2 * B2I(FREEXY(FP(self, obs))) + 2 * B2I(FREEXY(TP(self, obs))))
-__CPROVER_ensures(gv_exc == 0 ==> (UNK(1, SP(obs)->indx_or, self) &&
-                  UNK(FREEXY(FP(self, obs)), FP(self, obs)->ix_, self) && UNK(FREEXY(FP(self, obs)), FP(self, obs)->iy_, self) &&
-                  UNK(FREEXY(TP(self, obs)), TP(self, obs)->ix_, self) && UNK(FREEXY(TP(self, obs)), TP(self, obs)->iy_, self)))
-__CPROVER_ensures(gv_exc == 0 ==> self->maxn == __CPROVER_old(self->maxn) + NEWU(1, SP(obs)->indx_or) +
-                                    NEWU(FREEXY(FP(self, obs)), FP(self, obs)->ix_) + NEWU(FREEXY(FP(self, obs)), FP(self, obs)->iy_) +
-                                    NEWU(FREEXY(TP(self, obs)), TP(self, obs)->ix_) + NEWU(FREEXY(TP(self, obs)), TP(self, obs)->iy_))
-__CPROVER_ensures(gv_exc == 0 ==> EACH_ONCE(self))
-__CPROVER_ensures(gv_exc == 0 ==> HAS(self, SP(obs)->indx_or, -1.0))
-__CPROVER_ensures((gv_exc == 0 && FREEXY(FP(self, obs))) ==> (HAS(self, FP(self, obs)->iy_, -(KANG(P.sqrt_ret[0]) * P.C[0])) && HAS(self, FP(self, obs)->ix_, KANG(P.sqrt_ret[0]) * P.S[0])))
-__CPROVER_ensures((gv_exc == 0 && FREEXY(TP(self, obs))) ==> (HAS(self, TP(self, obs)->iy_, KANG(P.sqrt_ret[0]) * P.C[0]) && HAS(self, TP(self, obs)->ix_, -(KANG(P.sqrt_ret[0]) * P.S[0]))))
+__CPROVER_ensures(G.nsqrt == 1 && G.natan2 == 1)
+__CPROVER_ensures(gv_exc == 0 ==> REDUCED(self))
+__CPROVER_ensures(gv_exc == 0 ==> POST_ROW(ALL5, SUM5, U_OR, U_FX, U_FY, U_TX, U_TY))
+#endif
 //@ entry LocalLinearization_direction
 GV_CANARY("LocalLinearization_direction entry");
 //@ pre LocalLinearization_direction 1
 G.raw = a;
+LIN_INST_RAW(a, RAW_direction);
 //@ loop LocalLinearization_direction 1
 __CPROVER_assigns(a, G.j1)
 __CPROVER_loop_invariant(0 <= G.j1 && G.j1 <= 3 && a == SUBN(G.raw, G.j1) && (G.j1 > 0 ==> a > -200e4))
@@ -297,7 +455,7 @@ static struct StandPoint gv_sp;
 
 static void mk_state(void)
 {
-  struct PointData pd;          /* nondeterministic contents */
+  struct PointData pd; /* nondeterministic contents */
   struct LocalLinearization L;
   struct Observation ob;
   struct StandPoint sp;
@@ -311,17 +469,20 @@ static void mk_state(void)
   gv_ob.cluster = &gv_sp;
 }
 
-void h_distance(void)
-{
-  mk_state();
-  LocalLinearization_distance(&gv_L, &gv_ob);
-  GV_CANARY("h_distance end");
-}
-
-void h_direction(void)
-{
-  mk_state();
-  LocalLinearization_direction(&gv_L, &gv_ob);
-  GV_CANARY("h_direction end");
-}
+#define HARNESS(name)                                                                                      \
+  void h_##name(void)                                                                                      \
+  {                                                                                                        \
+    mk_state();                                                                                            \
+    LocalLinearization_##name(&gv_L, &gv_ob);                                                              \
+    GV_CANARY("h_" #name " end");                                                                          \
+  }
+HARNESS(x)
+HARNESS(y)
+HARNESS(z)
+HARNESS(xdiff)
+HARNESS(ydiff)
+HARNESS(zdiff)
+HARNESS(h_diff)
+HARNESS(distance)
+HARNESS(direction)
 //@ end
